@@ -87,9 +87,24 @@ def rate_of(x):
 
 
 class Interp:
-    def __init__(self, prog):
+    def __init__(self, prog, rec=None):
         self.prog = prog
         self.vals = []
+        # what the graph functions actually receive / create, independent of the library's own
+        # bookkeeping (cn.index): control name -> (first slot, rate number, default words)
+        self.rec = {} if rec is None else rec
+
+    def record_param(self, p, x):
+        """the value bound to parameter p: an output (or list of outputs) of a control unit whose
+        slots are source._special_index + output index"""
+        fl = flat(x)
+        if not fl or not isinstance(fl[0], ugn.OutputProxy) or not isinstance(fl[0].source_ugen, iou.AbstractControl):
+            return
+        x0 = fl[0]
+        d = p.get('default')
+        d = [0.0] if d is None else (list(d) if isinstance(d, list) else [d])
+        self.rec[p['name']] = [x0.source_ugen._special_index + x0._output_index, RATE.get(x0.source_ugen.rate, -1),
+                               [f32word(v) for v in d]]
 
     def coerce(self, x, need, unit_rate):
         """Make a single value acceptable for an input that checks rates."""
@@ -168,12 +183,35 @@ class Interp:
 
     def run(self, params):
         self.params = list(params)
+        for p, x in zip(self.prog['params'], self.params):
+            self.record_param(p, x)
         self.vals = []
         for ins in self.prog['body']:
             self.vals.append(self.step(ins))
+        if self.prog.get('returns'):
+            sig = [x for v in self.vals for x in flat(v) if isinstance(x, ugn.UGen)]
+            return sig[-1] if sig else 0.5
         return None
 
     def step(self, ins):
+        if 'wrap' in ins:
+            # SynthDef.wrap(inner function with its own parameters): a further group of controls
+            w = dict(ins['wrap'])
+            w['returns'] = True
+            sub = Interp(w, self.rec)
+            func = make_func(w, sub)
+            rates = [p.get('lag') for p in w['params']]
+            return SynthDef.wrap(func, rates=rates if any(r is not None for r in rates) else None)
+        if 'ctl' in ins:
+            # a control registered by hand: <Class>.add_name(name); <Class>.<meth>(values[, lags])
+            k = ins['ctl']
+            cls = getattr(iou, k['cls'])
+            first = len(_main.main._current_synthdef._controls)
+            cls.add_name(k['name'])
+            args = [list(k['values'])] + ([list(k['lags'])] if k.get('lags') is not None else [])
+            v = getattr(cls, k['meth'])(*args)
+            self.rec[k['name']] = [first, RATE[METH_RATE[k['meth']]], [f32word(x) for x in k['values']]]
+            return v
         if 'dyncls' in ins:
             # a unit class with a generated name (unit name = type(self).__name__), registered so that
             # the library's own reader finds it
@@ -298,8 +336,13 @@ def canon_desc(d):
             'hasvar': bool(d.has_variants), 'ins': [io(x) for x in d.inputs], 'outs': [io(x) for x in d.outputs]}
 
 
+LAST_REC = {}
+
+
 def build_one(prog, name=None, variants='keep'):
     interp = Interp(prog)
+    LAST_REC.clear()
+    interp.rec = LAST_REC
     func = make_func(prog, interp)
     rates = [p.get('lag') for p in prog['params']]
     if not any(r is not None for r in rates):
@@ -433,8 +476,13 @@ def run_case(prog):
         res['names3'] = [[cn.name, cn.index, len(utl.as_list(cn.default_value))]
                          for cn in sd._all_control_names if cn.rate != 'noncontrol']
         CN_RATE = {'scalar': 0, 'trigger': 1, 'control': 1, 'audio': 2}
-        res['decl'] = [[cn.name, cn.index, CN_RATE.get(cn.rate, -1), [f32word(x) for x in utl.as_list(cn.default_value)]]
+        # declared parameters: name-table order from the library, slot / rate / defaults from what the graph
+        # functions really received (rec); the library's own cn.index only where nothing was recorded
+        rec = dict(LAST_REC)
+        res['decl'] = [[cn.name] + (rec[cn.name] if cn.name in rec else
+                                    [cn.index, CN_RATE.get(cn.rate, -1), [f32word(x) for x in utl.as_list(cn.default_value)]])
                        for cn in sd._all_control_names if cn.rate != 'noncontrol']
+        res['decl_from_graph'] = sum(1 for cn in sd._all_control_names if cn.name in rec)
         res['truth'] = truth_units(sd)
         res['truthk'] = truth_consts(sd)
         if res['bytes'] is not None:
